@@ -175,8 +175,22 @@ def handleE (line : String) : Except String String := do
           else if realTables.isSome then
             -- the fixpoint result may depend on the visiting order; the real tables are checked below
             acc := { acc with tags := "prop-model-differs-fixpoint-order" :: acc.tags }
-          else acc := acc.addDiff "prop-model" (shorten (firstDiff mc oc))
-        else if m != out then acc := acc.addDiff s!"{pass}-model" (shorten (firstDiff m out))
+          else
+            acc := acc.addDiff "prop-model" (shorten (firstDiff mc oc))
+            if ws0 && outOpt.isSome then
+              let extra := (List.range 48).map fun k => CweModel.Sem.mix (seeds.headD 1 + 7919 * k) k % 2 ^ 48
+              match compareProgramsSem pass cur out extra fuel with
+              | .ok _ => acc := { acc with tags := "diff-extra-states-agree" :: acc.tags }
+              | .error (c, d) => acc := acc.addSpec c (shorten d)
+        else if m != out then
+          acc := acc.addDiff s!"{pass}-model" (shorten (firstDiff m out))
+          -- the model and the implementation disagree on this program: look harder for an execution in which
+          -- the implementation output behaves differently (many more initial states)
+          if ws0 && outOpt.isSome then
+            let extra := (List.range 48).map fun k => CweModel.Sem.mix (seeds.headD 1 + 7919 * k) k % 2 ^ 48
+            match compareProgramsSem pass cur out extra fuel with
+            | .ok _ => acc := { acc with tags := "diff-extra-states-agree" :: acc.tags }
+            | .error (c, d) => acc := acc.addSpec c (shorten d)
         else acc := acc.addDiff s!"{pass}-logs" (shorten s!"model={mlogs} impl={implLogs}")
       -- expression propagation: the tables of the real fixpoint
       match realTables with
@@ -188,7 +202,13 @@ def handleE (line : String) : Except String String := do
         if ins == out then acc := { acc with tags := "prop-insertion-syntactic" :: acc.tags }
         else if closeProgramWith rt ins == closeProgramWith rt out then
           acc := { acc with tags := "prop-insertion-up-to-order" :: acc.tags }
-        else acc := acc.addDiff "prop-insertion" (shorten (firstDiff (closeProgramWith rt ins) (closeProgramWith rt out)))
+        else
+          acc := acc.addDiff "prop-insertion" (shorten (firstDiff (closeProgramWith rt ins) (closeProgramWith rt out)))
+          if ws0 then
+            let extra := (List.range 48).map fun k => CweModel.Sem.mix (seeds.headD 1 + 7919 * k) k % 2 ^ 48
+            match compareProgramsSem pass cur out extra fuel with
+            | .ok _ => acc := { acc with tags := "diff-extra-states-agree" :: acc.tags }
+            | .error (c, d) => acc := acc.addSpec c (shorten d)
         -- (b) the real tables are a post-fixpoint of the model's transfer functions (soundness condition)
         if tablesClosed p₁ rt then acc := { acc with tags := "prop-tables-closed" :: acc.tags }
         else acc := acc.addDiff "prop-tables-not-closed" "the tables of the real fixpoint are not a post-fixpoint of the model transfer"
